@@ -380,7 +380,7 @@ def main():
         # one more operation (a node with a lone Node child only arises with >= 3 keys)
         extra = [s for s in sequences(3, 4) if len(s) == 4 and [op for op, _ in s[:3]] == ["put"] * 3
                  and sorted(key for _, key in s[:3]) == [0, 1, 2]
-                 and s[3] in (("remove", 0), ("remove", 2), ("put", 1))]
+                 and s[3] in (("remove", 0), ("remove", 2))]
         jobs += [(s, 3, timeout_ms, 400000) for s in extra]
     with mp.Pool(16) as pool:
         results = pool.map(check_sequence, jobs, chunksize=1)
